@@ -893,6 +893,13 @@ func (tr *trans) appendCall(v ssa.Value, c *ssa.CallCommon, st State, pos token.
 	}
 	tr.setState(st, h, ite(fits, ite(eq(n, "0"), A, store(A, "(sarr "+s+")", inPlace)), store(A, ref, freshArr)), "(sarr "+s+")", ref)
 	tr.setVal(v, ite(fits, fmt.Sprintf("(mkSlice (sarr %s) (soff %s) %s (scap %s))", s, s, newLen, s), fmt.Sprintf("(mkSlice %s 0 %s %s)", ref, newLen, ncap)))
+	// consequences of the two cases above, stated from the old elements' side so that a fact known about an
+	// old element carries over to its place in the result (E-matching needs the new term to exist). The index
+	// forms are chosen so that they cancel against the axioms above (no matching loop).
+	An := tr.getState(st, h)
+	inR := fmt.Sprintf("(and (<= (soff %s) jj) (< jj (+ (soff %s) %s)))", s, s, ln)
+	tr.vc.assume(fmt.Sprintf("(forall ((jj Int)) (! (=> (and %s %s) (= (select (select %s (sarr %s)) jj) (select (select %s (sarr %s)) jj))) :pattern ((select (select %s (sarr %s)) jj))))", fits, inR, An, s, A, s, A, s))
+	tr.vc.assume(fmt.Sprintf("(forall ((jj Int)) (! (=> (and (not %s) %s) (= (select %s (- jj (soff %s))) (select (select %s (sarr %s)) jj))) :pattern ((select (select %s (sarr %s)) jj))))", fits, inR, freshArr, s, A, s, A, s))
 }
 
 func (tr *trans) copyCall(v ssa.Value, c *ssa.CallCommon, st State, pos token.Pos) {
@@ -1118,6 +1125,9 @@ func (tr *trans) sortSlice(c *ssa.CallCommon, st State) bool {
 	in := func(x Term) Term { return and(app("<=", lo, x), app("<", x, hi)) }
 	tr.vc.assume(fmt.Sprintf("(forall ((j Int)) (! (ite %s (and %s (= (select %s j) (select %s (%s j)))) (= (select %s j) (select %s j))) :pattern ((select %s j))))", in("j"), in("("+perm+" j)"), nb, old, perm, nb, old, nb))
 	tr.vc.assume(fmt.Sprintf("(forall ((j Int)) (! (=> %s (and %s (= (%s (%s j)) j))) :pattern ((select %s j))))", in("j"), in("("+inv+" j)"), perm, inv, old))
+	// the permutation is a bijection of the index range; name the image of every old element
+	tr.vc.assume(fmt.Sprintf("(forall ((j Int)) (! (=> %s (= (select %s (%s j)) (select %s j))) :pattern ((select %s j))))", in("j"), nb, inv, old, old))
+	tr.vc.assume(fmt.Sprintf("(forall ((j Int)) (! (=> %s (= (%s (%s j)) j)) :pattern ((%s j))))", in("j"), inv, perm, perm))
 	tr.setState(st, h, store(A, "(sarr "+s+")", nb), "(sarr "+s+")")
 	tr.note("sort.Slice permutes the slice (the resulting order is not modelled)")
 	return true
